@@ -147,7 +147,8 @@ theorem Big.erase {m : Mode} {r : Id} {ph : Phase} {s s' : State} {x : Id} {pos 
     · rw [hr]; exact hc.late.ml.tm
   have hcore : Core s' r (pre' ++ post) ph := by
     refine ⟨hlate, hst', by rw [hk]; exact hc.rdoc, ?_, ?_, ?_, ?_, ?_, ?_, (RS.of_nodes hse.nodes).uniq hc.rtu,
-      by rw [hk]; exact hc.rnd, ?_, ?_, ?_, (Afx.of_elems hc.elems hbb.notPf).of_nodes hse.nodes⟩
+      by rw [hk]; exact hc.rnd, ?_, ?_, ?_, (Afx.of_elems hc.elems hbb.notPf).of_nodes hse.nodes,
+      by rw [hst']; exact (hc.adj.of_nodes hse.nodes).sub hc.nodup hsubl⟩
     · rw [hst']; exact hsubl.nodup hc.nodup
     · rw [hst']
       have := hc.tg
@@ -258,7 +259,8 @@ theorem Big.upd {m : Mode} {r : Id} {ph : Phase} {s s' : State} (h : Big m r ph 
   refine ⟨up, ⟨hl, by rw [h2]; exact hc.stack, by rw [h1]; exact hc.rdoc, by rw [h2]; exact hc.nodup,
     by rw [h1, h2]; exact hc.tg, by rw [h1]; exact haf, by rw [h1, h2, h9]; exact hc.tc, by rw [h9]; exact hc.tmm,
     by rw [h1]; exact hform, by rw [h1]; exact hc.rtu, by rw [h1]; exact hc.rnd, by rw [h1]; exact hc.kids,
-    by rw [h1, h3]; exact hc.elems, by rw [h1]; exact hc.bh, by rw [h1]; exact Afx.of_elems hc.elems hbb.notPf⟩,
+    by rw [h1, h3]; exact hc.elems, by rw [h1]; exact hc.bh, by rw [h1]; exact Afx.of_elems hc.elems hbb.notPf,
+    by rw [h1, h2]; exact hc.adj⟩,
     by rw [h1, h3]; exact hbb, by rw [h1]; exact hneed, ?_⟩
   intro hf
   rw [h1]
